@@ -17,6 +17,8 @@ pub enum Step {
     Append { p: u8, n: u8 },
     /// grant k units of fuel and wait until the writer used them (or is idle)
     Grant(u8),
+    /// grant k units WITHOUT waiting: the following appends race with the writer's pops
+    GrantAsync(u8),
 }
 
 #[derive(Clone, Debug, Serialize, Deserialize)]
@@ -66,6 +68,7 @@ pub fn check(case: &Case) -> CaseResult {
     let mut granted = 0u64;
     let mut partial_progress = false;
     let mut appended_since_grant = 0usize;
+    let mut racing = false;
     for st in &case.steps {
         match *st {
             Step::Append { p, n } => {
@@ -162,6 +165,11 @@ pub fn check(case: &Case) -> CaseResult {
                     total += n;
                     appended_since_grant += n;
                 }
+            }
+            Step::GrantAsync(k) => {
+                gate.grant(k as u64);
+                granted += k as u64;
+                racing = true;
             }
             Step::Grant(k) => {
                 if k == 0 {
@@ -295,10 +303,14 @@ pub fn check(case: &Case) -> CaseResult {
     if lost > 0 && partial_progress && granted > 0 && (granted as usize) < total {
         classes.push("nt");
     }
+    if racing && lost > 0 {
+        classes.push("appends-racing-with-writer");
+        classes.push("nt");
+    }
     Ok(classes)
 }
 
-pub const RULE: &str = "capacity 1-16, typed/boxed queue with a local DebuggingRecorder, writer stalled behind a fuel gate; steps: Append{producer, n<=40} (single driver, or all 2-4 producers concurrently from real threads) and Grant(k) (k=0.. units of writer progress, waited for). Oracle (sound necessary conditions; the writer may hold one popped entry): N1 delivered ids are a subsequence of each producer's append order (and of the global order for a single driver), nothing twice; N2 an entry is lost only if >= capacity appends ended after its append started; N3 fully stalled single driver: the newest min(capacity, n) entries all survive and at most capacity+1 are delivered; N4 metrique_queue_overflows == number of lost entries exactly; N5 an append never blocks (10 s + causal confirmation that it completes when fuel is granted). Non-trivial = >=1 loss with partial writer progress (0 < fuel < appends)";
+pub const RULE: &str = "capacity 1-16, typed/boxed queue with a local DebuggingRecorder, writer stalled behind a fuel gate; steps: Append{producer, n<=40} (single driver, or all 2-4 producers concurrently from real threads) and Grant(k) (k=0.. units of writer progress, waited for) or GrantAsync(k) (not waited for: the following appends race with the writer's pops on a full queue). Oracle (sound necessary conditions; the writer may hold one popped entry): N1 delivered ids are a subsequence of each producer's append order (and of the global order for a single driver), nothing twice; N2 an entry is lost only if >= capacity appends ended after its append started; N3 fully stalled single driver: the newest min(capacity, n) entries all survive and at most capacity+1 are delivered; N4 metrique_queue_overflows == number of lost entries exactly; N5 an append never blocks (10 s + causal confirmation that it completes when fuel is granted). Non-trivial = >=1 loss with partial writer progress (0 < fuel < appends)";
 
 pub fn run(ctx: &mut Ctx) {
     ctx.assume("the exact set of survivors is racy by one entry (the writer may already hold the oldest one); only conditions that hold on every schedule are asserted");
@@ -307,7 +319,7 @@ pub fn run(ctx: &mut Ctx) {
         SubCfg::new("c09-overflow", RULE, if q { 1_200 } else { 30_000 })
             .threads(ctx.tier.pick(4, 8))
             .shrink_iters(150)
-            .mandatory(&["loss", "stalled-writer", "multi-producer", "boxed-queue"]),
+            .mandatory(&["loss", "stalled-writer", "multi-producer", "boxed-queue", "appends-racing-with-writer"]),
         || {
             (
                 prop_oneof![3 => 1u8..5, 2 => 5u8..=16],
@@ -317,6 +329,7 @@ pub fn run(ctx: &mut Ctx) {
                     prop_oneof![
                         5 => (any::<u8>(), prop_oneof![1u8..4, 1u8..40]).prop_map(|(p, n)| Step::Append { p, n }),
                         2 => prop_oneof![Just(0u8), 1u8..6, 1u8..30].prop_map(Step::Grant),
+                        2 => prop_oneof![1u8..6, 1u8..60].prop_map(Step::GrantAsync),
                     ],
                     1..14,
                 ),
